@@ -226,6 +226,9 @@ func GenFlow(r *Rand, name string, o GenOpts) *Program {
 	if !p.Bare && r.Intn(100) < o.ImportPct {
 		g.importize()
 	}
+	if !p.Bare && !p.Wrap && len(f.Results) > 0 && r.Chance(1, 3) {
+		f.ResultsVia = true
+	}
 	g.finish()
 	return p
 }
@@ -364,9 +367,12 @@ func (g *flowGen) finish() {
 	if p.Bare {
 		feat["bare"] = true
 	}
+	if p.Flow != nil && p.Flow.ResultsVia {
+		feat["results-via-field"] = true
+	}
 	if p.Shadow && p.Flow != nil {
 		for i := range p.Flow.Params {
-			feat["shadow:"+ShadowNames[i%len(ShadowNames)]] = true
+			feat["shadow:"+p.shadowName(i)] = true
 		}
 	}
 	if p.Generic {
